@@ -1339,3 +1339,237 @@ def s_r12_superdict_precedence(schema: Schema, rep: Report):
         rep.note("S-R12 undecided: the way _superdict merges the MRO is not one of the recognised forms")
         return
     rep.check("S-R12", "Aggregate._superdict:subclass-definition-wins", bool(verdict), f"{why}: a class that re-declares an inherited element is written and (for list elements) read by the base's converter" if not verdict else "", where)
+
+
+class _Undecidable(Exception):
+    pass
+
+
+def _presence_eval(fn: ast.FunctionDef, kw: str, present: dict):
+    """abstractly run a validate_args override over the PRESENCE of its keyword children (a supplied child is a non-empty
+    text, an omitted one is missing from kwargs): 'raise' or 'ok'.  Nothing of the repository is executed - the few
+    statement / expression kinds these overrides are written with are interpreted over that two-point domain."""
+
+    class _Raise(Exception):
+        def __init__(self, kind):
+            self.kind = kind
+
+    env = {}
+
+    def ev(e):
+        if isinstance(e, ast.Constant):
+            return e.value
+        if isinstance(e, ast.Name):
+            if e.id in env:
+                return env[e.id]
+            if e.id == "None":
+                return None
+            raise _Undecidable(e.id)
+        if isinstance(e, ast.BoolOp):
+            v = None
+            for x in e.values:
+                v = ev(x)
+                if isinstance(e.op, ast.And) and not v:
+                    return v
+                if isinstance(e.op, ast.Or) and v:
+                    return v
+            return v
+        if isinstance(e, ast.UnaryOp) and isinstance(e.op, ast.Not):
+            return not ev(e.operand)
+        if isinstance(e, ast.IfExp):
+            return ev(e.body) if ev(e.test) else ev(e.orelse)
+        if isinstance(e, ast.Compare) and len(e.ops) == 1:
+            op, r = e.ops[0], e.comparators[0]
+            if isinstance(op, (ast.In, ast.NotIn)) and isinstance(r, ast.Name) and r.id == kw:
+                k = ev(e.left)
+                res = bool(present.get(k, False))
+                return res if isinstance(op, ast.In) else not res
+            a, b = ev(e.left), ev(r)
+            if isinstance(op, ast.Is):
+                return a is b
+            if isinstance(op, ast.IsNot):
+                return a is not b
+            if isinstance(op, ast.Eq):
+                return a == b
+            if isinstance(op, ast.NotEq):
+                return a != b
+            raise _Undecidable(text(e))
+        if isinstance(e, ast.Call):
+            f = e.func
+            if isinstance(f, ast.Attribute) and isinstance(f.value, ast.Name) and f.value.id == kw and f.attr in ("get", "pop") and e.args:
+                k = ev(e.args[0])
+                if present.get(k, False):
+                    return "x"
+                return ev(e.args[1]) if len(e.args) > 1 else None
+            if isinstance(f, ast.Name) and f.id == "bool" and len(e.args) == 1:
+                return bool(ev(e.args[0]))
+            if isinstance(f, ast.Name) and f.id in ("any", "all", "sum", "len") and len(e.args) == 1 and isinstance(e.args[0], (ast.List, ast.Tuple)):
+                vals = [ev(x) for x in e.args[0].elts]
+                return {"any": any, "all": all, "len": len, "sum": lambda v: sum(bool(x) if isinstance(x, bool) else x for x in v)}[f.id](vals)
+            raise _Undecidable(text(e)[:40])
+        if isinstance(e, ast.Subscript) and isinstance(e.value, ast.Name) and e.value.id == kw:
+            k = ev(e.slice)
+            if present.get(k, False):
+                return "x"
+            raise _Raise("KeyError")
+        if isinstance(e, (ast.JoinedStr,)):
+            return "msg"
+        raise _Undecidable(type(e).__name__)
+
+    def run(body):
+        for st in body:
+            if isinstance(st, ast.Assign) and len(st.targets) == 1 and isinstance(st.targets[0], ast.Name):
+                try:
+                    env[st.targets[0].id] = ev(st.value)
+                except _Undecidable:
+                    env.pop(st.targets[0].id, None)  # e.g. a message text: only matters if it is tested later
+            elif isinstance(st, ast.AnnAssign) and isinstance(st.target, ast.Name) and st.value is not None:
+                env[st.target.id] = ev(st.value)
+            elif isinstance(st, ast.Assert):
+                if not ev(st.test):
+                    raise _Raise("AssertionError")
+            elif isinstance(st, ast.If):
+                run(st.body if ev(st.test) else st.orelse)
+            elif isinstance(st, ast.Raise):
+                raise _Raise("raise")
+            elif isinstance(st, ast.Try):
+                try:
+                    run(st.body)
+                except _Raise as r:
+                    for h in st.handlers:
+                        names = [] if h.type is None else [text(t) for t in (h.type.elts if isinstance(h.type, ast.Tuple) else [h.type])]
+                        if h.type is None or r.kind in names or "Exception" in names:
+                            run(h.body)
+                            break
+                    else:
+                        raise
+                else:
+                    run(st.orelse)
+                run(st.finalbody)
+            elif isinstance(st, ast.Expr):
+                continue  # super().validate_args(...), logging: judged by other rules
+            elif isinstance(st, ast.Return):
+                return
+            elif isinstance(st, ast.Pass):
+                continue
+            else:
+                raise _Undecidable(type(st).__name__)
+
+    try:
+        run(fn.body)
+    except _Raise:
+        return "raise"
+    return "ok"
+
+
+# Presence constraints of the specification that a class states in code only (no mutex table), confirmed by reading and
+# frozen here: class -> (children, the combinations of SUPPLIED children that are admitted, source)
+PRESENCE_TABLES = {
+    "SONRQ": (("userid", "userpass", "userkey"), {frozenset({"userid", "userpass"}), frozenset({"userkey"})},
+              'OFX 2.5.1.2, quoted in SONRQ.validate_args and its error message: "Either <USERID> and <USERPASS> or <USERKEY>, but not both"'),
+}
+
+
+def s_r6g_presence_tables(schema: Schema, rep: Report):
+    """what a hand-written validate_args admits, as a table over which children are supplied"""
+    import itertools
+    from .flat import flat
+
+    rep.rule("S-R6g", "a group constraint that a class states in its validate_args only (SONRQ: either USERID and USERPASS, or USERKEY, not both) admits exactly the combinations of supplied children the specification lists: the override is evaluated over every subset of those children (supplied = non-empty text, omitted = not in kwargs) and the admitted subsets are compared with the table frozen in the checker (PRESENCE_TABLES) - a rewrite of the two assertions into one comparison that also lets USERKEY pass with only one of USERID / USERPASS is a different table")
+    p = schema.p
+    n = 0
+    overrides = {ci.name: (ci, fn0) for ci, fn0 in validate_overrides(schema)}
+    for cname, (children, admitted, src) in sorted(PRESENCE_TABLES.items()):
+        if cname not in overrides:
+            rep.check("S-R6g", f"{cname}.validate_args:presence-table", False, f"{cname} no longer overrides validate_args: the constraint `{src}` is not enforced", "")
+            continue
+        ci, fn0 = overrides[cname]
+        kw = fn0.args.kwarg.arg if fn0.args.kwarg else None
+        try:
+            fn = flat(p, ci.module, fn0, ci)
+        except Exception:
+            fn = fn0
+        got, wrong = set(), []
+        try:
+            for r in range(len(children) + 1):
+                for sub in itertools.combinations(children, r):
+                    res = _presence_eval(fn, kw, {k: True for k in sub})
+                    if res == "ok":
+                        got.add(frozenset(sub))
+                    if (res == "ok") != (frozenset(sub) in admitted):
+                        wrong.append(("admits" if res == "ok" else "refuses") + " {" + ", ".join(s.upper() for s in sub) + "}")
+        except _Undecidable as e:
+            rep.note(f"S-R6g undecided: {cname}.validate_args not evaluated ({e})")
+            continue
+        n += 1
+        rep.check("S-R6g", f"{cname}.validate_args:presence-table", not wrong, f"{cname}.validate_args {'; '.join(wrong)} - the specification ({src}) admits only {sorted(sorted(s) for s in admitted)}" if wrong else "", loc(ci, fn0))
+    rep.unit("presence_tables_evaluated", n)
+
+
+_FALSY_NATIVE = ("Bool", "Decimal", "Integer")
+
+
+def s_r6f_presence_not_truth(schema: Schema, rep: Report):
+    """False and 0 are values"""
+    rep.rule("S-R6f", "validate_args overrides test whether a Bool / Decimal / Integer child is SUPPLIED with `in kwargs` / `is (not) None`, never by its truth value: validate_args sees the caller's native value on the keyword route (False for <IRASEPSIMP>N, Decimal(0) for a zero amount - both falsy) and the document's text on the parse route ('N', '0.00' - both truthy), so `not kwargs.get('irasepsimp')` refuses the keyword form of what the reader accepts and an instance cannot be rebuilt from its own attribute values")
+    n = 0
+    for ci, fn in validate_overrides(schema):
+        kw = fn.args.kwarg.arg if fn.args.kwarg else None
+        if not kw:
+            continue
+        spec = schema.spec(ci)
+
+        def child_of(e, vals):
+            if isinstance(e, ast.Name) and e.id in vals:
+                return vals[e.id]
+            if isinstance(e, ast.Call) and isinstance(e.func, ast.Attribute) and e.func.attr in ("get", "pop") and isinstance(e.func.value, ast.Name) and e.func.value.id == kw and e.args and isinstance(e.args[0], ast.Constant):
+                return e.args[0].value
+            if isinstance(e, ast.Subscript) and isinstance(e.value, ast.Name) and e.value.id == kw and isinstance(e.slice, ast.Constant):
+                return e.slice.value
+            return None
+
+        vals = {}
+        for st in ast.walk(fn):
+            if isinstance(st, ast.Assign) and len(st.targets) == 1 and isinstance(st.targets[0], ast.Name):
+                k = child_of(st.value, {})
+                if k is not None:
+                    vals[st.targets[0].id] = k
+        tested = []
+        for x in ast.walk(fn):
+            cands = []
+            if isinstance(x, (ast.If, ast.While, ast.IfExp, ast.Assert)):
+                cands.append(x.test)
+            elif isinstance(x, ast.BoolOp):
+                cands.extend(x.values)
+            elif isinstance(x, ast.UnaryOp) and isinstance(x.op, ast.Not):
+                cands.append(x.operand)
+            elif isinstance(x, ast.Call) and text(x.func) in ("bool", "any", "all"):
+                for a in x.args:
+                    cands.extend(a.elts if isinstance(a, (ast.List, ast.Tuple)) else [a])
+            for c in cands:
+                k = child_of(c, vals)
+                if k is not None:
+                    tested.append((k, c))
+        for k, c in tested:
+            ch = spec.get(k)
+            if ch is None:
+                continue
+            n += 1
+            falsy = ch.kind in _FALSY_NATIVE
+            rep.check("S-R6f", f"{ci.name}.validate_args:{k}:presence-not-truth", not falsy, f"{ci.name}.validate_args judges the {ch.kind} child `{k}` by its truth value (`{text(c)[:40]}`): a supplied {'False' if ch.kind == 'Bool' else 'zero'} counts as missing on the keyword route while the document's text for it is truthy on the parse route - the reader accepts what the constructor refuses" if falsy else "", loc(ci, c))
+    rep.unit("children_judged_by_truth_value", n)
+
+
+def s_r13_no_scale_on_document_amounts(schema: Schema, rep: Report):
+    """a declared scale makes the reader round"""
+    rep.rule("S-R13", "no Decimal child of a model class declares a scale: Decimal(scale).convert() quantizes what it reads (ROUND_HALF_EVEN) without error or warning, so <BALAMT>1520.755 becomes 1520.76 in the model - the OFX Amount type has no fixed number of decimals (three-decimal currencies, unit prices and quantities of securities carry more) and the value in the model must be the value in the document")
+    n = 0
+    for ci in schema.all_aggregate_classes():
+        for name, ch in schema.spec(ci).items():
+            if ch.kind != "Decimal":
+                continue
+            n += 1
+            if ch.scale is not None:
+                rep.check("S-R13", f"{ci.name}.{name}:no-scale", False, f"{ci.name}.{name} is declared Decimal(scale={ch.scale}): the reader rounds the document's value to {ch.scale} decimals silently (1520.755 -> 1520.76; 0.005 -> 0.00), so the model no longer holds the value of the document", child_loc(ch))
+    rep.floor("S-R13", n, 200, "Decimal children")
+    rep.check("S-R13", "models:no-decimal-scale", True, "", f"{n} Decimal children")
